@@ -236,6 +236,12 @@ class ApplyMonitors:
                 if len(same_type) >= 2 and got is not None and sorted(tk.marks_key(got.marks)) == sorted(
                         tk.marks_key(node.marks)):
                     det["shape"] = "same-type-mark-order"
+                elif kind == "addNodeMark":
+                    newset = step.mark.add_to_set(node.marks)
+                    displaced = [m for m in node.marks if not m.is_in_set(newset)]
+                    if len(displaced) == 1 and validity.excludes(sim.schema, step.mark.type.name, displaced[0].type.name) \
+                            and not validity.excludes(sim.schema, displaced[0].type.name, step.mark.type.name):
+                        det["shape"] = "asymmetric-exclusion"
             self.violation("C04", "undo.single_not_exact", dict(det, got=r.doc.to_json()))
             return
         if not r.doc.eq(old):
